@@ -490,10 +490,6 @@ impl TreeEngine {
         }
         let hg = build_tree(cfg.n, h);
         let unreachable: BTreeSet<usize> = h.extras.iter().map(|e| e.id).collect();
-        let hkeys = hg.keys();
-        if hkeys.len() != h.nodes.len() + h.extras.len() {
-            return (None, false); // the right graph is not what the spec says (harness guard)
-        }
         let res = catch_unwind(AssertUnwindSafe(|| r.g.merge(&*hg, left, h.root())));
         match res {
             Err(p) => (fail("merge.panic", format!("merge with {} unreachable right vertices panicked: {}", unreachable.len(), panic_text(p))), true),
